@@ -94,11 +94,30 @@ def behaviour_from_trace(trace):
     return dict(defs=last["def"], sched=sched, res=None, disk=None, attack=True)
 
 
-def gen_behaviours(n, seed, wd):
-    c = sconsts("Opposite", list("abcd"), KEYS)
-    c["Catalog"] = Raw("<- SimCatalog")
+def lock_order_attacks(wd, info):
+    """Count schedules that deadlock under SOME lock acquisition order (LockOrder.tla), as gate scenarios."""
+    r = tlc("LockOrder", make_cfg(dict(OutFile="lockorder.json", Keys=set(KEYS))), wd, name="LockOrder", workers=1)
+    require_ok(r, "LockOrder")
+    atk = json.load(open(os.path.join(wd, "LockOrder", "lockorder.json")))["attacks"]
+    info["model_runs"].append(dict(module="LockOrder", attacks=len(atk)))
+    out = []
+    for n, a in enumerate(sorted(atk, key=lambda x: json.dumps(x, sort_keys=True))):
+        def op(rid, q, root):
+            return dict(id=rid, kind="atts", ents=[dict(k=KIDX[k], s=0, t=1, root=root) for k in q])
+        sched = [dict(r="a", site="start"), dict(r="b", site="start"), dict(r="a", site="ruler.enter"), dict(r="b", site="ruler.enter")]
+        sched += [dict(r="a", site="lock")] * a["i"] + [dict(r="b", site="lock")] * a["j"]
+        out.append((a, dict(id="par", kind="par", gate=True, ops=[op("a", a["q1"], "A"), op("b", a["q2"], "B")], sched=sched)))
+    return out
+
+
+def gen_behaviours(n, seed, wd, broken=None):
+    """Random behaviours of the shipped design (broken=None) or of a broken design (attack schedules:
+    e.g. LockMode="none" admits every interleaving of the fetch/check/store steps)."""
+    c = sconsts("Opposite", list("abcd") if not broken else list("abc"), KEYS if not broken else KEYS[:2], **(broken or {}))
+    c["Catalog"] = Raw("<- SimCatalog") if not broken else Raw("<- ConflictCatalog")
     workers = min(NCPU, 8)
-    r = tlc("SignerSim", make_cfg(c, spec="SimSpec", invariants=["NoSlashableAtt", "Linearizable"]), wd, name="SignerSim", workers=workers,
+    r = tlc("SignerSim", make_cfg(c, spec="SimSpec", invariants=[] if broken else ["NoSlashableAtt", "Linearizable"]), wd,
+            name="SignerSim" + ("_broken" if broken else ""), workers=workers,
             simulate="num=1", depth=max(200, int(n * 60 / workers)), seed=seed, timeout=900)
     if r.error or r.violated:
         raise Inconclusive("SignerSim failed: %s %s" % (r.error, r.violated))
@@ -107,7 +126,8 @@ def gen_behaviours(n, seed, wd):
         m = re.match(r'<<"BEHAVIOUR", "(.*)">>$', line)
         if m:
             b = json.loads(m.group(1).replace('\\"', '"'))
-            out.append(dict(defs=b["def"], sched=b["sched"], res=b["res"], disk=b["disk"], attack=False))
+            out.append(dict(defs=b["def"], sched=b["sched"], res=None if broken else b["res"], disk=b["disk"], attack=bool(broken),
+                            origin="behaviour of the broken design %s" % broken if broken else "behaviour of the shipped design"))
     if not out:
         raise Inconclusive("SignerSim produced no behaviours")
     return out[:n]
@@ -262,6 +282,11 @@ def run(prop, tier, seed):
         attacks = model_phase(prop, tier, wd, info)
         nsim = 40 if tier == "quick" else 400
         behs = gen_behaviours(nsim, seed, wd)
+        lock_atk = lock_order_attacks(wd, info) if prop == "C15" else []
+        if prop == "C04":
+            # every interleaving of fetch/check/store steps that a design WITHOUT effective locking admits
+            attacks += gen_behaviours(nsim * 2, seed + 1, wd, broken=dict(LockMode="none"))
+            attacks += gen_behaviours(nsim, seed + 2, wd, broken=dict(LockMode="first"))
         concs = concretisations(3, seed, 0 if tier == "quick" else 1)
         scenarios, meta = [], {}
         for ci, (cname, conc) in enumerate(concs):
@@ -269,6 +294,11 @@ def run(prop, tier, seed):
                 sid = "%s-%s-%s%d" % (prop, cname, "atk" if b["attack"] else "sim", i)
                 scenarios.append(scenario_for(b, sid, conc))
                 meta[sid] = b
+            if prop == "C15" and ci == 0:
+                for n, (a, par) in enumerate(lock_atk):
+                    sid = "%s-%s-lockorder%d" % (prop, cname, n)
+                    scenarios.append(dict(id=sid, world=dict(nkeys=3), conc=conc, ops=[par]))
+                    meta[sid] = None
             # free-running groups of 8 requests (two behaviours merged)
             for j in range(0, min(len(behs), 12 if tier == "quick" else 120) - 1, 2):
                 sid = "%s-%s-free%d" % (prop, cname, j)
